@@ -1,6 +1,316 @@
-"""Native replay of a refuted obligation against the real code (real jax.numpy, float64).  Filled in below."""
+"""Native replay of a refuted contract obligation against the real code (real jax.numpy, float64).
+
+The harness of the failing case is re-run with CONCRETE values for its named symbols (the solver's model first, then a
+fixed battery of configurations): the real function is called natively on concrete inputs and its result is compared
+with the spec, evaluated numerically by symjnp.numeval.  A disagreement (or an exception mismatch) is a native
+witness of the violation."""
 from __future__ import annotations
 
+import io
+import contextlib
+import json
+import math
+import os
+import random
+import re
+import sys
+import traceback
+from fractions import Fraction
 
-def replay_obligation(ob, seed=0):
-    return {"confirmed": False, "note": "native replay not available for this obligation kind"}
+import numpy as np
+
+from . import contracts as CT
+from . import engine, numeval, ops, rules, smt, sym, values
+from .values import SArr
+
+VERIF = os.path.dirname(os.path.dirname(os.path.abspath(__file__)))
+TOL = 1e-7
+
+
+def _parse(v):
+    try:
+        if "/" in v:
+            a, b = v.split("/")
+            return Fraction(int(a), int(b))
+        return Fraction(v)
+    except Exception:
+        return None
+
+
+def _model_values(model):
+    out = {}
+    for k, v in (model or {}).items():
+        if "!" in k or k == "PI":
+            continue
+        f = _parse(str(v))
+        if f is not None:
+            out[k] = f
+    return out
+
+
+def battery(seed, n=24):
+    rnd = random.Random(1234 + seed)
+    for i in range(n):
+        N = [6, 5, 8, 7, 4, 9, 3, 10][i % 8]
+        L = [Fraction(1), Fraction(3), Fraction(25, 4), Fraction(7, 2)][i % 4]
+        yield {"N": Fraction(N), "L": L, "dt": Fraction([1, 7, 3][i % 3], 10), "C": Fraction(1 + i % 2), "E": Fraction(1),
+               "M": Fraction([16, 7][i % 2]), "r": Fraction(1), "kinj": Fraction(1 + i % 2), "n": Fraction(2 + i % 3),
+               "__rnd__": rnd.random()}
+
+
+class ConcreteEngine(engine.Engine):
+    """engine in replay mode: named symbols take concrete values, decisions are evaluated concretely"""
+
+    def __init__(self, name, concrete):
+        super().__init__(name)
+        self.concrete = _Defaults(concrete)
+
+    def prove(self, name, goal, **kw):  # obligations are not the point here
+        return True
+
+    def satisfiable(self, *a, **k):
+        return True
+
+    def holds(self, cond, timeout_ms=0):
+        if isinstance(cond, bool):
+            return cond
+        try:
+            return bool(numeval.NumEnv(ops.interner(self)).ev(cond))
+        except Exception:
+            return False
+
+    def decide(self, cond):
+        if isinstance(cond, bool):
+            return cond
+        return bool(numeval.NumEnv(ops.interner(self)).ev(cond))
+
+    def assume(self, cond):
+        if isinstance(cond, bool):
+            ok = cond
+        else:
+            ok = bool(numeval.NumEnv(ops.interner(self)).ev(cond))
+        if not ok:
+            raise engine.PathAbort()
+
+
+class _Defaults(dict):
+    """concrete values with seeded defaults for symbols the model / battery entry does not mention"""
+
+    def __init__(self, base):
+        super().__init__(base)
+        self.rnd = random.Random(int(1e6 * float(base.get("__rnd__", 0.5))))
+
+    def __contains__(self, k):
+        return True
+
+    def __getitem__(self, k):
+        if not dict.__contains__(self, k):
+            self[k] = Fraction(self.rnd.randint(-150, 150), 100) or Fraction(1, 2)
+        return dict.__getitem__(self, k)
+
+
+def _to_native(x, env):
+    import jax.numpy as jnp
+    if isinstance(x, SArr):
+        return jnp.asarray(numeval.to_numpy(x, env))
+    if isinstance(x, (values.SInt, values.SFloat)):
+        return env.ev(x.t)
+    if isinstance(x, (int, float, str, bool, complex)) or x is None:
+        return x
+    if isinstance(x, (tuple, list)):
+        return type(x)(_to_native(v, env) for v in x)
+    if isinstance(x, dict):
+        return {k: _to_native(v, env) for k, v in x.items()}
+    if isinstance(x, (sym.AbstractOp,)) or callable(x) and not hasattr(x, "__dataclass_fields__"):
+        return x
+    if hasattr(x, "__dict__") and type(x).__module__.startswith(("exponax", "contracts")):
+        return CT.make_instance(type(x), {k: _to_native(v, env) for k, v in vars(x).items()})
+    return x
+
+
+def _to_numeric(x, env):
+    if isinstance(x, CT.ObjSpec):
+        return {k: _to_numeric(v, env) for k, v in x.fields.items()}
+    if isinstance(x, CT.Opaque):
+        return None
+    if isinstance(x, SArr):
+        return numeval.to_numpy(x, env)
+    if isinstance(x, (values.SInt, values.SFloat)):
+        return env.ev(x.t)
+    if isinstance(x, (tuple, list)):
+        return [_to_numeric(v, env) for v in x]
+    if isinstance(x, dict):
+        return {k: _to_numeric(v, env) for k, v in x.items()}
+    if isinstance(x, slice):
+        return [_to_numeric(x.start, env), _to_numeric(x.stop, env), x.step]
+    return x
+
+
+def _diff(got, exp, path="result"):
+    """list of (path, detail) where the native value differs from the numeric spec value"""
+    out = []
+    if exp is None:
+        return out
+    if isinstance(exp, dict):
+        for k, v in exp.items():
+            g = got.get(k) if isinstance(got, dict) else getattr(got, k, None)
+            if g is None and v is not None and not (isinstance(got, dict) and k in got) and not hasattr(got, k):
+                out.append((f"{path}.{k}", "missing"))
+            else:
+                out += _diff(g, v, f"{path}.{k}")
+        return out
+    if isinstance(exp, list):
+        if isinstance(got, slice):
+            got = [got.start, got.stop, got.step]
+        if not isinstance(got, (list, tuple)) or len(got) != len(exp):
+            return [(path, f"sequence mismatch: {got!r:.80} vs {exp!r:.80}")]
+        for j, (g, v) in enumerate(zip(got, exp)):
+            out += _diff(g, v, f"{path}[{j}]")
+        return out
+    if isinstance(exp, np.ndarray):
+        try:
+            g = np.asarray(got)
+        except Exception:
+            return [(path, f"not an array: {type(got).__name__}")]
+        if g.shape != exp.shape:
+            return [(path, f"shape {g.shape} vs spec {exp.shape}")]
+        if exp.dtype == bool:
+            bad = np.argwhere(g.astype(bool) != exp)
+        else:
+            with np.errstate(invalid="ignore"):
+                err = np.abs(g - exp)
+                bad = np.argwhere(~(err <= TOL * (1 + np.abs(exp))) & ~np.isnan(exp))
+        if len(bad):
+            i = tuple(int(v) for v in bad[0])
+            return [(path, f"{len(bad)} element(s) differ, e.g. at {i}: native {g[i]!r} vs spec {exp[i]!r}")]
+        return out
+    if isinstance(exp, (int, float, Fraction)) and not isinstance(exp, bool):
+        try:
+            gv = float(np.asarray(got))
+        except Exception:
+            return [(path, f"not a number: {got!r:.60}")]
+        if not abs(gv - float(exp)) <= TOL * (1 + abs(float(exp))):
+            return [(path, f"native {gv!r} vs spec {float(exp)!r}")]
+        return out
+    if isinstance(exp, (str, bool)):
+        if got != exp:
+            return [(path, f"native {got!r} vs spec {exp!r}")]
+        return out
+    return out
+
+
+def run_native(c, case, concrete, seed=0):
+    """returns dict(confirmed: bool, detail: ..., inputs: ...) or raises"""
+    eng = ConcreteEngine(f"replay:{c.qualname}[{case.label}]", concrete)
+    prev, engine.CURRENT = engine.CURRENT, eng
+    sym.CONCRETE_ABSTRACT[0] = True
+    try:
+        try:
+            built = case.build(eng)
+        except engine.PathAbort:
+            return {"skipped": "requires not satisfied by these values"}
+        ctx = {}
+        if isinstance(built, tuple) and len(built) == 3 and isinstance(built[1], dict) and isinstance(built[2], dict):
+            args, kwargs, ctx = built
+        else:
+            args, kwargs = built if isinstance(built, tuple) and len(built) == 2 and isinstance(built[1], dict) else (built, {})
+        if c.invoke is not None:
+            try:
+                bargs, bkw = c.bind((None,) + tuple(args), kwargs)
+                bargs = bargs[1:]
+            except TypeError:
+                bargs, bkw = args, kwargs
+        else:
+            bargs, bkw = c.bind(args, kwargs)
+        if c.requires is not None:
+            for nm, cond in c.requires(*bargs, **bkw):
+                if isinstance(cond, (CT.Assumed, CT.ForAll)):
+                    continue
+                cv = cond.t if isinstance(cond, values.SBool) else cond
+                if not (cv if isinstance(cv, bool) else eng.decide(cv)):
+                    return {"skipped": f"requires '{nm}' not satisfied by these values"}
+        env = numeval.NumEnv(ops.interner(eng), seed)
+        nargs, nkw = _to_native(tuple(args), env), _to_native(dict(kwargs), env)
+        # ---- the real function on the real jax
+        exc, res = None, None
+        try:
+            with contextlib.redirect_stdout(io.StringIO()):
+                res = (c.invoke or c.orig)(*nargs, **nkw)
+                if "apply" in ctx and callable(res):
+                    res = res(*_to_native(tuple(ctx["apply"]), env))
+        except CT.EXPECTED_EXC as ex:
+            exc = ex
+        # ---- the spec
+        expected_exc = None
+        for exc_t, cond in c.raises:
+            with engine.no_div_guard():
+                cv = cond(*bargs, **bkw)
+            cv = cv.t if isinstance(cv, values.SBool) else cv
+            if cv if isinstance(cv, bool) else eng.decide(cv):
+                expected_exc = exc_t
+                break
+        info = {"inputs": {k: str(v) for k, v in eng.concrete.items() if not k.startswith("__")}}
+        if expected_exc is not None or exc is not None:
+            ok = expected_exc is not None and exc is not None and isinstance(exc, expected_exc)
+            info.update(confirmed=not ok, detail=f"native raised {type(exc).__name__ if exc else None}: {str(exc)[:120] if exc else ''}; "
+                                                  f"contract expects {expected_exc.__name__ if expected_exc else 'a normal return'}")
+            return info
+        if c.spec is None:
+            info.update(confirmed=False, detail="no spec")
+            return info
+        with engine.no_div_guard():
+            exp = c.spec(*bargs, **bkw)
+            if "apply" in ctx and callable(exp):
+                exp = exp(*ctx["apply"])
+        env2 = numeval.NumEnv(ops.interner(eng), seed)
+        d = _diff(res, _to_numeric(exp, env2))
+        info.update(confirmed=bool(d), detail="; ".join(f"{p}: {m}" for p, m in d[:4]) if d else "native result equals the spec")
+        return info
+    finally:
+        engine.CURRENT = prev
+        sym.CONCRETE_ABSTRACT[0] = False
+
+
+def replay_obligation(ob, seed=0, max_battery=16):
+    item = ob.get("item") or ""
+    m = re.match(r"^(.*?)\[(.*)\]$", item)
+    if not m or m.group(1) not in CT.REGISTRY:
+        return {"confirmed": False, "note": "level-2 lemma / no contract harness: nothing to replay natively"}
+    c = CT.REGISTRY[m.group(1)]
+    case = next((k for k in c.cases if k.label == m.group(2)), None)
+    if case is None:
+        return {"confirmed": False, "note": "case not found"}
+    tried = []
+    mv = _model_values(ob.get("model"))
+    cands = []
+    if mv and all(abs(v) <= 12 for k, v in mv.items() if k in ("N", "C", "E", "M", "n", "T", "sub", "A", "B", "Q")):
+        cands.append(dict(mv, __src__="solver model"))
+    for b in battery(seed, max_battery):
+        cands.append(dict(b, __src__="battery"))
+    for cand in cands:
+        src = cand.pop("__src__")
+        try:
+            r = run_native(c, case, cand, seed)
+        except Exception as ex:
+            tried.append({"source": src, "error": f"{type(ex).__name__}: {str(ex)[:200]}"})
+            continue
+        r["source"] = src
+        if r.get("confirmed"):
+            r["tried_before"] = len(tried)
+            return r
+        tried.append({k: r.get(k) for k in ("source", "skipped", "detail")})
+    return {"confirmed": False, "native_battery": f"{len(tried)} configurations tried, none failed natively", "tried": tried[:6]}
+
+
+def replay_file(path):
+    """./check replay <file>: re-run the native replay recorded in a counterexample file"""
+    p = path if os.path.isabs(path) else os.path.join(VERIF, path)
+    rec = json.load(open(p))
+    ob = {"item": rec.get("item"), "model": rec.get("model"), "name": rec.get("obligation")}
+    r = replay_obligation(ob)
+    print(json.dumps({"obligation": rec.get("obligation"), "native": r}, indent=1, default=str))
+    if r.get("confirmed"):
+        print(f"VIOLATION property={rec.get('property')} replay={path}")
+        return 1
+    print("replay: the recorded obligation does not fail natively on this tree")
+    return 0
